@@ -594,10 +594,10 @@ theorem leaveOuter_ok {d : Decomp} {M : Nat} {r : Reader} (hn : d.isNull = true)
     rw [this]
     exact ⟨hob, hol, Nat.zero_le _, fun _ => rfl, nofun, nofun⟩
   | false =>
-    have : leaveOuter d r = { r.blk with rest := r.after, avail := 0, limit := none } := by
-      simp [leaveOuter, hn, hob]
-    rw [this]
-    exact ⟨hbk.back, rfl, Nat.zero_le _, nofun, hbk.alloc, hal⟩
+    have hc : d.isNull = true ∧ ¬ r.outer.isSlice = true := ⟨hn, by simp [hob]⟩
+    unfold leaveOuter
+    rw [if_pos hc]
+    exact ⟨hbk.back, rfl, srcAfterBlock_fst_le _ _ _, nofun, hbk.alloc, hal⟩
 
 theorem leaveBlock_cut {d : Decomp} {M : Nat} {sync : Bytes} {r r2 : Reader}
     {bs : List (List V)} {u : Unit} (hn : d.isNull = true) (hsy : sync.length = 16)
